@@ -294,6 +294,21 @@ def run(ctx, n_files=None):
                 if amb:
                     ctx.count("loader:ambiguous-table-entry")
 
+            # a reference (edge end, entry point, referent, expression
+            # symbol) naming a UUID that several node messages carry: which
+            # node the table holds when it is resolved can depend on that
+            # same walk order, and with it acceptance itself
+            node_u, ref_u = {}, set()
+            for f in fs.uuid_fields(m2):
+                u = bytes(getattr(f[1], f[2]))
+                if f[3] == "node":
+                    node_u[u] = node_u.get(u, 0) + 1
+                else:
+                    ref_u.add(u)
+            order_dep = any(node_u.get(u, 0) > 1 for u in ref_u)
+            if order_dep:
+                ctx.count("loader:order-dependent-reference")
+
             def masked(txt, amb=amb):
                 if not amb or " table=" not in txt:
                     return txt
@@ -303,19 +318,25 @@ def run(ctx, n_files=None):
                 return head + " table=" + " ".join(toks)
             ctx.nontriv(("loader", fclass, out))
 
-            def cb(i, line, a, b, masked=masked):
+            def cb(i, line, a, b, masked=masked, order_dep=order_dep):
                 # the model does not carry `_proto_interval`: a re-used
                 # interval whose expressions were already decoded makes the
                 # implementation raise AttributeError where the model goes on
+                if order_dep and {a.split(" ")[0], b.split(" ")[0]} <= {
+                        "ok", "err:deser"}:
+                    return True
                 return a == "exc:AttributeError" or masked(a) == masked(b)
             if out == "exc:AttributeError":
                 obs_x = "err:attribute"
             else:
                 obs_x = obs
 
-            def cbx(i, line, a, b, masked=masked):
+            def cbx(i, line, a, b, masked=masked, order_dep=order_dep):
                 # which of two failing intervals the real loader meets first
                 # is its set iteration order
+                if order_dep and {a.split(" ")[0], b.split(" ")[0]} <= {
+                        "ok", "err:deser"}:
+                    return True
                 return {a, b} == {"err:attribute", "err:deser"} or \
                     masked(a) == masked(b)
             tie_x.add_checked("file %d %s" % (fno, what),
